@@ -40,6 +40,10 @@ func issue(r *RNG, subject string, pub crypto.PublicKey, parent *x509.Certificat
 func issueWith(r *RNG, subject string, pub crypto.PublicKey, parent *x509.Certificate, parentKey *KeyPair, isCA bool, notAfter time.Time, self bool, mod func(*x509.Certificate)) []byte {
 	tmpl := &x509.Certificate{SerialNumber: big.NewInt(int64(r.U64() >> 1)), Subject: pkix.Name{CommonName: subject},
 		NotBefore: time.Now().Add(-48 * time.Hour), NotAfter: notAfter, IsCA: isCA, BasicConstraintsValid: true}
+	if !isCA && r.P(1, 3) {
+		// a signing certificate issued a moment ago (validity is a matter of the time of the CALL, not of when the process started)
+		tmpl.NotBefore = time.Now().Add(-300 * time.Millisecond)
+	}
 	if isCA {
 		tmpl.KeyUsage = x509.KeyUsageCertSign
 	} else {
@@ -88,11 +92,11 @@ func (p *pki) underDefaultRoot(r *RNG, depth int) {
 }
 
 func newPKI(r *RNG, depth int, leafExpired bool) *pki {
-	kinds := []int{algES256, algRS256, algES384}
+	kinds := []int{algES256, algRS256, algES384, algES512, algEdDSA}
 	mk := func() *KeyPair {
 		a := pick(r, kinds)
 		if kindOfAlg(a) == "ec" {
-			return genKeyPairOnCurve(r, a, map[int]int{algES256: 1, algES384: 2}[a], false)
+			return genKeyPairOnCurve(r, a, map[int]int{algES256: 1, algES384: 2, algES512: 3}[a], false)
 		}
 		return genKeyPair(r, a)
 	}
